@@ -90,6 +90,20 @@ func newApp(db dbm.DB, multiToken ...bool) *simapp.SimApp {
 	return app
 }
 
+// canRewire: whether the sample app and the keeper are shaped so that the token keeper can be replaced (probed once).
+var canRewireMemo = 0
+
+func canRewire() bool {
+	if canRewireMemo == 0 {
+		canRewireMemo = -1
+		app := simapp.NewSimApp(log.NewNopLogger(), dbm.NewMemDB(), nil, true, map[int64]bool{}, simapp.DefaultNodeHome, 0, simapp.MakeEncodingConfig())
+		if rewireTokenKeeper(app) {
+			canRewireMemo = 1
+		}
+	}
+	return canRewireMemo == 1
+}
+
 func (h *Host) registerForeign() {
 	k := h.app.ServiceKeeper
 	if h.noForeign {
@@ -158,6 +172,13 @@ func serviceParams(cfg *Config) types.Params {
 
 // NewHost creates the chain from the run configuration.
 func NewHost(cfg *Config) *Host {
+	if cfg.MultiToken && !canRewire() {
+		// the application is no longer shaped as expected: the run goes ahead as a single-token run (reported by the
+		// probe multi_token_unavailable), never as an alarm
+		cfg.MultiToken = false
+		cfg.Rates = nil
+		multiTokenRun = false
+	}
 	h := &Host{cfg: cfg, db: dbm.NewMemDB(), chain: chainID, rates: map[string]string{}}
 	for k, v := range cfg.Rates {
 		h.rates[k] = v
